@@ -436,7 +436,9 @@ C_Poll(s, c) ==
 
 (* abandoning a call = dropping its future; the guard's drop has three separable steps *)
 Ab_Enter(s, c) ==
-  LET s0 == Ob(s, ODropEnter(s.o, c)) IN
+  LET s00 == Ob(s, ODropEnter(s.o, c))
+      \* notable: the call is abandoned after its deadline passed but before the dispatch has processed the expiry
+      s0 == IF s.call[c].id \in InflIds(s) /\ s.now >= s.call[c].dl THEN Tag(s00, "abandon-overdue") ELSE s00 IN
   CASE s.call[c].st = "new" ->                              \* never polled: nothing was created
          SendersGone(Ob([s0 EXCEPT !.call[c].st = "dropped", !.woken = @ \ {c}], OAbandon(s0.o, c)))
     [] s.call[c].st = "waitperm" ->                         \* the pending send future is dropped first
